@@ -1,4 +1,5 @@
 import NflowsModel.Audit.Tool
 import NflowsModel.Properties.C05
+import NflowsModel.Properties.C05G
 
 #audit_namespace Properties.C05
